@@ -16,7 +16,7 @@ CONSTANTS
   MaxQueue,   \* capacity of the front->back channel = max_concurrent_requests      (mod.rs:384)
   BufCap,     \* capacity of a subscription stream = max_buffer_capacity_per_subscription
   SubIds,     \* subscription ids the peer may hand out
-  Dev,        \* subset of {"F3","F7","F8","F10","F13a","F13b","F13c","F17"}
+  Dev,        \* subset of {"F3","F7","F8","F10","F13a","F13b","F13c","F16","F17"}
   PeerMenu,   \* which kinds of texts the peer may send: subset of {"resp","notif","close","mnotif","array","garbage","foreign","dup"}
   MaxPeer,    \* bound on the number of texts the peer sends
   MaxPush,    \* bound on the payload counter of subscription notifications
@@ -173,6 +173,15 @@ SubDrop(h) ==
   /\ stream' = [stream EXCEPT ![h].rx = "dropped", ![h].buf = <<>>]
   /\ UNCHANGED <<idCtr, fe, req, subIdx, bat, seen, unsubSent, inq, nPeer, nTok, pushed, fault>> /\ UNCHANGED shutVars
 
+(* The application lets go of a handle whose stream has already yielded its end (client/mod.rs:442-456).  Design: nothing is  *)
+(* sent - the subscription is over, and its id may meanwhile name another one.  Tree before the F16 fix: the close request is  *)
+(* sent all the same.                                                                                                         *)
+SubDropEnded(h) ==
+  /\ stream[h].rx = "ended"
+  /\ stream' = [stream EXCEPT ![h].rx = "gone"]
+  /\ toBack' = IF "F16" \in Dev /\ feOpen /\ Len(toBack) < MaxQueue THEN Append(toBack, [t |-> "subclosed", sub |-> stream[h].sub]) ELSE toBack
+  /\ UNCHANGED <<idCtr, fe, req, subIdx, bat, seen, unsubSent, inq, nPeer, nTok, pushed, fault>> /\ UNCHANGED shutVars
+
 -----------------------------------------------------------------------------
 (* ---------------------------------- send task: handle_frontend_messages, mod.rs:796-883 ---------------------------------- *)
 
@@ -276,7 +285,7 @@ PeerSend(m0) ==
 
 (* sink.send - client/mod.rs:623-633 + helpers.rs:94-126.  Returns the new stream record and whether a close request follows *)
 Deliver(h, n) ==
-  IF stream[h].rx \in {"dropped", "ended"} THEN [s |-> stream[h], closeReq |-> TRUE]                     \* receiver gone: Closed
+  IF stream[h].rx \in {"dropped", "ended", "gone"} THEN [s |-> stream[h], closeReq |-> TRUE]                     \* receiver gone: Closed
   ELSE IF Len(stream[h].buf) < BufCap THEN [s |-> [stream[h] EXCEPT !.buf = Append(@, n)], closeReq |-> FALSE]
   ELSE [s |-> [stream[h] EXCEPT !.lagged = TRUE], closeReq |-> TRUE]                                       \* TooSlow: lagged
 
@@ -285,7 +294,7 @@ ProcPush(e, R, S, T) ==
   CASE e.t = "notif" ->                                                   \* process_subscription_response helpers.rs:94-126
          IF Has(S, e.sub) /\ R[S[e.sub]].k = "sub"
            THEN LET h == R[S[e.sub]].h
-                    d == IF T[h].rx \in {"dropped", "ended"} THEN [s |-> T[h], c |-> TRUE]
+                    d == IF T[h].rx \in {"dropped", "ended", "gone"} THEN [s |-> T[h], c |-> TRUE]
                          ELSE IF Len(T[h].buf) < BufCap THEN [s |-> [T[h] EXCEPT !.buf = Append(@, e.n)], c |-> FALSE]
                          ELSE [s |-> [T[h] EXCEPT !.lagged = TRUE], c |-> TRUE]
                 IN [req |-> R, subIdx |-> S, stream |-> [T EXCEPT ![h] = d.s], fwd |-> IF d.c THEN <<e.sub>> ELSE <<>>]
@@ -473,7 +482,7 @@ AppStart    == \E h \in Ops : FeAlloc(h)                                     \* 
 AppAbandon  == Abandon /\ \E h \in Ops : fe[h].st # "idle" /\ FeAbandon(h)    \* ... or gives its future up
 FeNext      == \E h \in Ops : FeEnqueue(h) \/ FeObserve(h)                   \* its future makes progress
 StreamPoll  == \E h \in Subs : SubNext(h) \/ SubEnd(h)                       \* the application polls a stream
-StreamLeave == \E h \in Subs : SubUnsubStart(h) \/ SubDrop(h)                \* ... or gives it up
+StreamLeave == \E h \in Subs : SubUnsubStart(h) \/ SubDrop(h) \/ SubDropEnded(h)   \* ... or gives it up / lets an ended one go
 StreamInt   == \E h \in Subs : SubUnsubEnqueue(h) \/ SubDrained(h) \/ SubDrainOne(h)
 TaskNext    == StRecv \/ RtRecv \/ RtForward                                 \* the two background tasks
 PeerNext    == \E m \in Texts : PeerSend(m)
@@ -511,7 +520,7 @@ Inv_SameCause == \A h, g \in Ops : fe[h].res.k = "restart" /\ fe[g].res.k = "res
 Inv_NoPanic == rt # "panicked"
 Inv_DisconnectedAfterFailure == (st = "done" /\ rt = "done") => ~feOpen
 (* C18 - quiescence: every op finished, queues empty, every subscription ended and its unsubscribe acknowledged *)
-StreamOver(h) == stream[h].sub = NoId \/ (~stream[h].tx /\ stream[h].rx \in {"ended", "dropped"})
+StreamOver(h) == stream[h].sub = NoId \/ (~stream[h].tx /\ stream[h].rx \in {"ended", "gone", "dropped"})
 (* an operation given up counts as finished once the answer it no longer waits for has come in *)
 Answered(h) == /\ ~\E i \in DOMAIN req : req[i].k \in {"call", "psub"} /\ req[i].h = h
                /\ ~\E b \in bat : b.h = h
